@@ -53,9 +53,19 @@ class UserAddEdge(ActionGroup):
                 f"than target node {target}"
             )
 
+        # Refuse a third child before anything is changed (a forced merge removal below
+        # would otherwise be applied and then followed by this refusal)
+        in_degree_target = self.tracks.graph.in_degree(target)
+        remaining_out_degree = self.tracks.graph.out_degree(source)
+        if force and self.tracks.graph.has_edge(source, target):
+            remaining_out_degree -= 1  # the existing edge is removed first
+        if remaining_out_degree > 1 and (force or in_degree_target == 0):
+            raise InvalidActionError(
+                f"Expected degree of 0 or 1 before adding edge, got {remaining_out_degree}"
+            )
+
         # Check if making a merge. If yes and force, remove the other edge and update
         # track ids.
-        in_degree_target = self.tracks.graph.in_degree(target)
         if in_degree_target > 0:
             if not force:
                 raise InvalidActionError(
